@@ -127,6 +127,14 @@ func makeRemoteSource(sourceType string, u *url.URL, subPath string) (RemoteSour
 		return RemoteSource{}, err
 	}
 
+	// RawPath is only a hint for printing. Drop it when it does not change
+	// what is printed, so that addresses which print the same also compare
+	// equal (url.Parse itself leaves it empty in that case, but it is set for
+	// input such as a path with an unescaped space).
+	if defaultForm := (&url.URL{Path: u.Path}); u.EscapedPath() == defaultForm.EscapedPath() {
+		u.RawPath = ""
+	}
+
 	return RemoteSource{
 		pkg: RemotePackage{
 			sourceType: sourceType,
